@@ -135,6 +135,8 @@ class PFn:
             bad('attribute', e)
         if isinstance(e, ast.UnaryOp) and isinstance(e.op, ast.Not):
             return '(XNot %s)' % E(e.operand)
+        if isinstance(e, ast.IfExp):
+            return '(XIf %s %s %s)' % (E(e.test), E(e.body), E(e.orelse))
         if isinstance(e, ast.BoolOp):
             op = 'XAnd' if isinstance(e.op, ast.And) else 'XOr'
             r = E(e.values[-1])
